@@ -258,6 +258,10 @@ fn odd_shapes() -> Gen<Vec<S>> {
         top.push(shout(bin(Op::Add, bin(Op::Add, var("a1"), var("a2")), call("inner", vec![]))));
         v.push(top);
     }
+    // a store one past the end of an array that has spare capacity (grown by push, shrunk by pop)
+    v.push(vec![make("a", E::Arr(vec![])), S::Expr(meth(var("a"), "push", vec![num("1")])), S::SetIdx(idx(var("a"), num("1")), num("2"))]);
+    v.push(vec![make("a", E::Arr(vec![num("1"), num("2"), num("3")])), S::Expr(meth(var("a"), "pop", vec![])), S::SetIdx(idx(var("a"), num("2")), num("9"))]);
+    v.push(vec![make("a", E::Arr(vec![E::Arr(vec![])])), S::Expr(meth(idx(var("a"), num("0")), "push", vec![num("1")])), S::SetIdx(idx(idx(var("a"), num("0")), num("1")), num("2"))]);
     // empty array pop result used
     v.push(vec![make("a", E::Arr(vec![])), make("s", st("x")), set("s", meth(var("a"), "pop", vec![])), shout(bin(Op::Add, var("s"), st("y")))]);
     v.push(vec![make("a", E::Arr(vec![])), shout(bin(Op::Add, meth(var("a"), "pop", vec![]), num("1")))]);
